@@ -8,7 +8,7 @@ META = {
 def queries(tier):
     qs = []
     mur = list(range(0, 18)) + [31, 32, 33] + ([24, 47, 48, 49] if tier == 'thorough' else [])
-    xx = [0, 1, 2, 3, 4, 5, 6, 7] + ([8, 12, 16, 31, 32, 40] if tier == 'thorough' else [])
+    xx = [0, 1, 2, 3, 4, 5, 6, 7] + ([8, 12, 16, 31] if tier == 'thorough' else [])   # >= 32 bytes (stripe loop): no verdict in 1500 s
     for l in mur:
         qs.append(Q(f'murmur_len{l:02d}', 'hashes', 'c10_hash.c', defs={'WHICH': 0, 'LEN': l, 'VERIF_UF_MUL': None}, c_defs={'VERIF_UF_MUL': None}, tu_defs={'__OPT': '-O0'}, unwind=40, timeout=(240 if tier == 'quick' else 1500), native_vectors=300))
     for l in xx:
